@@ -539,4 +539,419 @@ def printWord (o : Opts) (w : Word) : Except PrintErr Bytes :=
     | none => .error .panic
     | some pos => (({ (P.init o) with line := pos.line }).word w).finish
 
+
+/-! ## Lexer (syntax/lexer.go restricted to F0)
+
+  The fragment needs no lexer modes: inside F0 every byte is lexed in the `noState` quote state,
+  and a single-quoted string is read in one go.  Whatever the fragment does not cover — any byte
+  outside the safe alphabet, `\r`, NUL, comments, `;;`, `&>`, `|&`, `((`, `()`, a word glued to
+  `(`, an escaped newline inside a word, reserved words other than `{ } !` in command position —
+  makes the model answer `outside`; the harness then counts the input as out-of-fragment. -/
+
+/-- Literal bytes with no special meaning to the lexer in any variant: letters, digits and
+    `% + , - . / : @ ^ _`. -/
+def isSafe (b : UInt8) : Bool :=
+  (97 ≤ b && b ≤ 122) || (65 ≤ b && b ≤ 90) || (48 ≤ b && b ≤ 57) ||
+  b == 37 || b == 43 || b == 44 || b == 45 || b == 46 || b == 47 || b == 58 || b == 64 || b == 94 || b == 95
+
+/-- Bytes allowed between single quotes in F0: printable ASCII except `'` and `\`, and newline. -/
+def isSglSafe (b : UInt8) : Bool :=
+  (32 ≤ b && b ≤ 126 && b != 39 && b != 92) || b == 10
+
+/-- Bytes that end a word: blank, tab, newline, `;`, `&`, `|`, `)`. -/
+def isDelim (b : UInt8) : Bool :=
+  b == 32 || b == 9 || b == 10 || b == 59 || b == 38 || b == 124 || b == 41
+
+/-- `nextPos` after reading byte `b` at `p` (`rune()`: a newline bumps the line and resets the
+    column for the *next* byte). -/
+def Pos.adv (p : Pos) (b : UInt8) : Pos :=
+  if b == 10 then ⟨p.offs + 1, p.line + 1, 1⟩ else ⟨p.offs + 1, p.line, p.col + 1⟩
+
+inductive Tok
+  | eof | newl | semi | amp | andAnd | orOr | pipe | lparen | rparen
+  /-- a whole word; `lit` is its value when it is a single literal (`_LitWord`) -/
+  | word (w : Word) (lit : Option Bytes)
+  /-- something outside F0 -/
+  | outside
+  /-- `reached EOF without closing quote '` -/
+  | unclosedQuote
+deriving DecidableEq, Repr, Inhabited
+
+inductive LexMode
+  | idle
+  | lit (start : Pos) (acc : Bytes)
+  | sgl (left : Pos) (acc : Bytes)
+deriving Repr, Inhabited
+
+inductive WordLex
+  | done (parts : List WordPart) (stop : Pos) (rest : Bytes)
+  | outside
+  | unclosedQuote
+deriving Repr, Inhabited
+
+/-- closes the literal being read, if any; `acc` holds the parts in reverse -/
+def closeLit (mode : LexMode) (pos : Pos) (acc : List WordPart) : List WordPart :=
+  match mode with
+  | .lit st a => .lit st pos a.reverse :: acc
+  | _ => acc
+
+/-- Reads one word (`wordParts` + `advanceLitNone` + the `sglQuote` case of `wordPart`). -/
+def lexWord : Bytes → Pos → LexMode → List WordPart → WordLex
+  | [], pos, mode, acc =>
+    match mode with
+    | .sgl _ _ => .unclosedQuote
+    | _ => .done (closeLit mode pos acc).reverse pos []
+  | b :: rest, pos, mode, acc =>
+    match mode with
+    | .sgl left a =>
+      if b == 39 then lexWord rest (pos.adv b) .idle (.sgl left pos a.reverse :: acc)
+      else if isSglSafe b then lexWord rest (pos.adv b) (.sgl left (b :: a)) acc
+      else .outside
+    | _ =>
+      if isSafe b then
+        match mode with
+        | .lit st a => lexWord rest (pos.adv b) (.lit st (b :: a)) acc
+        | _ => lexWord rest (pos.adv b) (.lit pos [b]) acc
+      else if b == 39 then lexWord rest (pos.adv b) (.sgl pos []) (closeLit mode pos acc)
+      else if isDelim b then .done (closeLit mode pos acc).reverse pos (b :: rest)
+      else .outside
+
+/-- The blank-skipping loop at the start of `next()`; `skipNl` is `p.tok == _Newl` (consecutive
+    newline tokens are merged). -/
+def skipSpace (skipNl : Bool) : Bytes → Pos → Bytes × Pos
+  | [], p => ([], p)
+  | b :: rest, p =>
+    if b == 32 || b == 9 then skipSpace skipNl rest (p.adv b)
+    else if b == 10 && skipNl then skipSpace skipNl rest (p.adv b)
+    else if b == 92 then
+      match rest with
+      | 10 :: rest' => skipSpace skipNl rest' ⟨p.offs + 2, p.line + 1, 1⟩
+      | _ => (b :: rest, p)
+    else (b :: rest, p)
+
+def litWord? (parts : List WordPart) : Option Bytes :=
+  match parts with
+  | [.lit _ _ v] => some v
+  | _ => none
+
+/-- What `next()` leaves in `p.tok`/`p.pos`: token, its position, the unread input and the
+    position of its first byte. -/
+structure Lexed where
+  tok : Tok
+  pos : Pos
+  rest : Bytes
+  rpos : Pos
+deriving Repr, Inhabited
+
+def eofOrDelim : Bytes → Bool
+  | [] => true
+  | b :: _ => isDelim b
+
+/-- `p.next()` -/
+def nextTok (skipNl : Bool) (src : Bytes) (spos : Pos) : Lexed :=
+  match skipSpace skipNl src spos with
+  | ([], p) => ⟨.eof, p, [], p⟩
+  | (b :: rest, p) =>
+    let one (t : Tok) : Lexed := ⟨t, p, rest, p.adv b⟩
+    let two (t : Tok) (r : Bytes) : Lexed := ⟨t, p, r, (p.adv b).adv b⟩
+    if b == 10 then one .newl
+    else if b == 59 then
+      match rest with
+      | 59 :: _ | 38 :: _ | 124 :: _ => one .outside
+      | _ => one .semi
+    else if b == 38 then
+      match rest with
+      | 38 :: r => two .andAnd r
+      | 62 :: _ | 124 :: _ | 33 :: _ => one .outside
+      | _ => one .amp
+    else if b == 124 then
+      match rest with
+      | 124 :: r => two .orOr r
+      | 38 :: _ => one .outside
+      | _ => one .pipe
+    else if b == 40 then
+      match rest with
+      | 40 :: _ | 41 :: _ => one .outside
+      | _ => one .lparen
+    else if b == 41 then one .rparen
+    else if b == 123 || b == 125 || b == 33 then
+      -- `{`, `}`, `!` are in F0 only as whole words
+      if eofOrDelim rest then one (.word ⟨[.lit p (p.adv b) [b]]⟩ (some [b])) else one .outside
+    else if isSafe b || b == 39 then
+      match lexWord (b :: rest) p .idle [] with
+      | .done parts stop r => ⟨.word ⟨parts⟩ (litWord? parts), p, r, stop⟩
+      | .outside => one .outside
+      | .unclosedQuote => one .unclosedQuote
+    else one .outside
+
+/-! ## Parser (syntax/parser.go restricted to F0) -/
+
+/-- Language variant.  F0 is lexed and parsed identically in all five variants: everything
+    variant-dependent (empty lists, `((`, `[[`, `function` …) is outside the fragment. -/
+inductive Lang
+  | bash | posix | mksh | bats | zsh
+deriving DecidableEq, Repr, Inhabited
+
+inductive ParseErr
+  /-- the input uses something outside F0 -/
+  | outside
+  /-- a syntax error, with the Go error text it corresponds to -/
+  | syntax (msg : String)
+  | outOfFuel
+deriving DecidableEq, Repr, Inhabited
+
+/-- parser state: the current token and the unread input -/
+structure PS where
+  tok : Tok
+  pos : Pos
+  rest : Bytes
+  rpos : Pos
+deriving Repr, Inhabited
+
+def PS.ofLexed (l : Lexed) : PS := ⟨l.tok, l.pos, l.rest, l.rpos⟩
+
+/-- `p.next()` -/
+def PS.next (ps : PS) : PS := .ofLexed (nextTok (ps.tok == .newl) ps.rest ps.rpos)
+
+/-- `p.got(_Newl)` -/
+def PS.gotNewl (ps : PS) : Bool × PS := if ps.tok == .newl then (true, ps.next) else (false, ps)
+
+/-- Reserved words that start a construct outside F0 when they are the first word of a command
+    (in some variant). -/
+def outsideKeywords : List String :=
+  ["if", "then", "elif", "else", "fi", "while", "until", "do", "done", "for", "case", "esac",
+   "select", "function", "[[", "]]", "let", "declare", "local", "export", "readonly", "typeset",
+   "nameref", "time", "coproc", "@test", "{}"]
+
+def isOutsideKeyword (v : Bytes) : Bool := outsideKeywords.any fun k => bytesOfString k == v
+
+/-- `p.stopToken()` -/
+def Tok.isStop : Tok → Bool
+  | .eof | .newl | .semi | .amp | .pipe | .andAnd | .orOr | .rparen => true
+  | _ => false
+
+/-- The argument loop of `callExpr`; structurally recursive on a fuel that bounds the number of
+    words.  Returns the words in order and the state at the first token that is not a word. -/
+def callArgs : Nat → Bool → PS → List Word → Except ParseErr (List Word × PS)
+  | 0, _, _, _ => .error .outOfFuel
+  | fuel + 1, inSub, ps, acc =>
+    match ps.tok with
+    | .eof | .newl | .semi | .amp | .pipe | .andAnd | .orOr => .ok (acc.reverse, ps)
+    | .rparen =>
+      if inSub then .ok (acc.reverse, ps)
+      else .error (.syntax "a command can only contain words and redirects")
+    | .word w lit =>
+      match lit with
+      | some v =>
+        if v == [123] || v == [125] || v == [33] then .error .outside
+        else callArgs fuel inSub ps.next (w :: acc)
+      | none => callArgs fuel inSub ps.next (w :: acc)
+    | .lparen => .error .outside
+    | .outside => .error .outside
+    | .unclosedQuote => .error (.syntax "reached EOF without closing quote '")
+
+def mkStmt (pos : Pos) (neg : Bool) (cmd : Cmd) : Stmt := .mk pos Pos.zero neg false cmd
+
+def Stmt.negated : Stmt → Bool
+  | .mk _ _ n _ _ => n
+def Stmt.setNeg : Stmt → Bool → Stmt
+  | .mk p s _ b c, n => .mk p s n b c
+def Stmt.setEnd : Stmt → Pos → Bool → Stmt
+  | .mk p _ n _ c, semi, bg => .mk p semi n bg c
+def Stmt.semi : Stmt → Pos
+  | .mk _ s _ _ _ => s
+
+mutual
+/-- `p.stmts(…)`: the statement loop.  `inSub` is `p.quote == subCmd`, `stopBrace` says whether
+    `}` is a stop word, `gotEnd` is the loop variable of the same name. -/
+def stmtsF : Nat → Bool → Bool → Bool → PS → List Stmt → Except ParseErr (List Stmt × PS)
+  | 0, _, _, _, _, _ => .error .outOfFuel
+  | fuel + 1, inSub, stopBrace, gotEnd, ps, acc =>
+    if ps.tok == .eof then .ok (acc.reverse, ps)
+    else
+      let (newLine, ps) := ps.gotNewl
+      -- the switch on p.tok
+      let brk : Option (Except ParseErr Unit) :=
+        match ps.tok with
+        | .word _ (some v) =>
+          if v == [125] then
+            if stopBrace then some (.ok ()) else some (.error (.syntax "`}` can only be used to close a block"))
+          else none
+        | .rparen => if inSub then some (.ok ()) else none
+        | _ => none
+      match brk with
+      | some (.ok ()) => .ok (acc.reverse, ps)
+      | some (.error e) => .error e
+      | none =>
+        if !newLine && !gotEnd then .error (.syntax "statements must be separated by &, ; or a newline")
+        else if ps.tok == .eof then .ok (acc.reverse, ps)
+        else
+          match getStmtF fuel inSub true false ps with
+          | .error e => .error e
+          | .ok (none, ps') =>
+            match ps'.tok with
+            | .outside => .error .outside
+            | .unclosedQuote => .error (.syntax "reached EOF without closing quote '")
+            | _ => .error (.syntax "not a valid start for a statement")
+          | .ok (some s, ps') => stmtsF fuel inSub stopBrace s.semi.valid ps' (s :: acc)
+
+/-- `p.getStmt(readEnd, binCmd, false)` -/
+def getStmtF : Nat → Bool → Bool → Bool → PS → Except ParseErr (Option Stmt × PS)
+  | 0, _, _, _, _ => .error .outOfFuel
+  | fuel + 1, inSub, readEnd, binCmd, ps =>
+    let pos := ps.pos
+    let neg := match ps.tok with
+      | .word _ (some v) => v == [33]
+      | _ => false
+    let ps := if neg then ps.next else ps
+    if neg && ps.tok.isStop then .error (.syntax "`!` cannot form a statement alone")
+    else if neg && (match ps.tok with | .word _ (some v) => v == [33] | _ => false) then
+      .error (.syntax "cannot negate a command multiple times")
+    else
+      match gotStmtPipeF fuel inSub pos neg false ps with
+      | .error e => .error e
+      | .ok (none, ps) => .ok (none, ps)
+      | .ok (some s, ps) =>
+        match andOrF fuel inSub binCmd s ps with
+        | .error e => .error e
+        | .ok (s, ps) =>
+          if readEnd then
+            match ps.tok with
+            | .semi => .ok (some (s.setEnd ps.pos false), ps.next)
+            | .amp => .ok (some (s.setEnd ps.pos true), ps.next)
+            | _ => .ok (some s, ps)
+          else .ok (some s, ps)
+
+/-- the `for p.tok == andAnd || p.tok == orOr` loop of `getStmt` -/
+def andOrF : Nat → Bool → Bool → Stmt → PS → Except ParseErr (Stmt × PS)
+  | 0, _, _, _, _ => .error .outOfFuel
+  | fuel + 1, inSub, binCmd, s, ps =>
+    let op? : Option BinOp := match ps.tok with
+      | .andAnd => some .andStmt
+      | .orOr => some .orStmt
+      | _ => none
+    match op? with
+    | none => .ok (s, ps)
+    | some op =>
+      if binCmd then .ok (s, ps)
+      else
+        let opPos := ps.pos
+        let ps := ps.next
+        let ps := ps.gotNewl.2
+        match getStmtF fuel inSub false true ps with
+        | .error e => .error e
+        | .ok (none, ps') =>
+          match ps'.tok with
+          | .outside => .error .outside
+          | _ => .error (.syntax "must be followed by a statement")
+        | .ok (some y, ps') =>
+          andOrF fuel inSub binCmd (mkStmt s.pos false (.binary opPos op s y)) ps'
+
+/-- `p.gotStmtPipe(s, binCmd)`; `pos`/`neg` are `s.Position`/`s.Negated` on entry -/
+def gotStmtPipeF : Nat → Bool → Pos → Bool → Bool → PS → Except ParseErr (Option Stmt × PS)
+  | 0, _, _, _, _, _ => .error .outOfFuel
+  | fuel + 1, inSub, pos, neg, binCmd, ps =>
+    let first : Except ParseErr (Option Stmt × PS) :=
+      match ps.tok with
+      | .word w lit =>
+        match lit with
+        | some v =>
+          if v == [123] then
+            -- p.block(s)
+            let lb := ps.pos
+            let ps := ps.next
+            if ps.tok == .semi then .error .outside -- `{;` : an error or an empty list by variant
+            else
+              match stmtsF fuel inSub true true ps [] with
+              | .error e => .error e
+              | .ok (ss, ps) =>
+                if ss.isEmpty then
+                  (match ps.tok with
+                   | .outside => .error .outside
+                   | _ => .error .outside) -- `{ }` : an error or an empty list by variant
+                else
+                  match ps.tok with
+                  | .word _ (some v') =>
+                    if v' == [125] then .ok (some (mkStmt pos neg (.block lb ps.pos (Stmts.ofList ss))), ps.next)
+                    else .error (.syntax "reached EOF without matching `{` with `}`")
+                  | .outside => .error .outside
+                  | _ => .error (.syntax "reached EOF without matching `{` with `}`")
+          else if v == [125] then .error (.syntax "`}` can only be used to close a block")
+          else if v == [33] then
+            if !neg then .error (.syntax "`!` can only be used in full statements") else .error .outside
+          else if isOutsideKeyword v then .error .outside
+          else
+            match callArgs (fuel + 1) inSub ps.next [w] with
+            | .error e => .error e
+            | .ok (args, ps) => .ok (some (mkStmt pos neg (.call args)), ps)
+        | none =>
+          match callArgs (fuel + 1) inSub ps.next [w] with
+          | .error e => .error e
+          | .ok (args, ps) => .ok (some (mkStmt pos neg (.call args)), ps)
+      | .lparen =>
+        -- p.subshell(s)
+        let lp := ps.pos
+        let ps := ps.next
+        if ps.tok == .semi then .error .outside
+        else
+          match stmtsF fuel true false true ps [] with
+          | .error e => .error e
+          | .ok (ss, ps) =>
+            if ss.isEmpty then
+              (match ps.tok with
+               | .outside => .error .outside
+               | _ => .error .outside) -- `( )` : an error or an empty list by variant
+            else
+              match ps.tok with
+              | .rparen => .ok (some (mkStmt pos neg (.subshell lp ps.pos (Stmts.ofList ss))), ps.next)
+              | .outside => .error .outside
+              | _ => .error (.syntax "reached EOF without matching `(` with `)`")
+      | .outside => .error .outside
+      | .unclosedQuote => .error (.syntax "reached EOF without closing quote '")
+      | _ => .ok (none, ps)
+    match first with
+    | .error e => .error e
+    | .ok (none, ps) => .ok (none, ps)
+    | .ok (some s, ps) =>
+      match pipeF fuel inSub binCmd s ps with
+      | .error e => .error e
+      | .ok (s, ps) => .ok (some s, ps)
+
+/-- the `for p.tok == or` loop of `gotStmtPipe` -/
+def pipeF : Nat → Bool → Bool → Stmt → PS → Except ParseErr (Stmt × PS)
+  | 0, _, _, _, _ => .error .outOfFuel
+  | fuel + 1, inSub, binCmd, s, ps =>
+    if ps.tok == .pipe then
+      if binCmd then .ok (s, ps)
+      else
+        let opPos := ps.pos
+        let ps := ps.next
+        let ps := ps.gotNewl.2
+        match gotStmtPipeF fuel inSub ps.pos false true ps with
+        | .error e => .error e
+        | .ok (none, ps') =>
+          match ps'.tok with
+          | .outside => .error .outside
+          | _ => .error (.syntax "must be followed by a statement")
+        | .ok (some y, ps') =>
+          -- in "! x | y", the bang applies to the entire pipeline
+          pipeF fuel inSub binCmd (mkStmt s.pos s.negated (.binary opPos .pipe (s.setNeg false) y)) ps'
+    else .ok (s, ps)
+end
+
+/-- `Parser.Parse` with explicit fuel -/
+def parseFuel (fuel : Nat) (_l : Lang) (src : Bytes) : Except ParseErr File :=
+  let ps : PS := .ofLexed (nextTok false src ⟨0, 1, 1⟩)
+  match stmtsF fuel false false true ps [] with
+  | .error e => .error e
+  | .ok (ss, ps) =>
+    match ps.tok with
+    | .eof => .ok ⟨Stmts.ofList ss⟩
+    | .outside => .error .outside
+    | _ => .error (.syntax "unexpected token")
+
+/-- `Parser.Parse`.  The recursion consumes at least one input byte per level (theorem
+    `fuel_sufficient`), so `4 * |src| + 8` units of fuel are never used up. -/
+def parse (l : Lang) (src : Bytes) : Except ParseErr File := parseFuel (4 * src.length + 8) l src
+
 end ShVerif.L4
